@@ -14,7 +14,10 @@ use std::net::{IpAddr, SocketAddr};
 use std::sync::Arc;
 use thiserror::Error;
 use tokio::io::{AsyncBufRead, AsyncRead, AsyncReadExt, AsyncWrite, BufReader};
+#[cfg(not(penguin_rs_verif))]
 use tokio::net::UdpSocket;
+#[cfg(penguin_rs_verif)]
+use penguin_simnet::UdpSocket;
 use tokio::sync::mpsc;
 use tokio::task::JoinSet;
 use tracing::{debug, info, trace, warn};
